@@ -262,6 +262,7 @@ int main()
             void* p = g_pool->Alloc();
             const size_t id = g_elem.size();
             uintptr_t base = 0, payload = 0; size_t idx = 0;
+            if ((uintptr_t)p % g_pool->elemAlign() != 0) flag("!misaligned");
             g_pool->locate(p, base, idx, payload);
             std::string b = "?";
             auto it = g_mm.blocks.find(base);
@@ -271,7 +272,6 @@ int main()
                 if ((uintptr_t)p < base || (uintptr_t)p + g_pool->elemSize() > base + it->second.second) flag("!outside-block");
                 if (payload != (uintptr_t)p) flag("!bad-index");
             }
-            if ((uintptr_t)p % g_pool->elemAlign() != 0) flag("!misaligned");
             // must not overlap anything the host still uses
             auto nx = g_liveAddr.lower_bound((uintptr_t)p);
             if (nx != g_liveAddr.end() && nx->first < (uintptr_t)p + g_pool->elemSize()) flag("!overlap");
